@@ -1431,7 +1431,7 @@ Section Policies.
     cbn [app]. destruct b; lexk_go2.
   Qed.
 
-  (* Without a side condition the exact statement is FALSE: annots_ok admits reserved words as annotation keys; the printer
+  (* Without a side condition the exact statement is FALSE: annots_ok allows reserved words as annotation keys; the printer
      lists such a key as an identifier token while the tokenizer reports a reserved-word token (see
      [lex_render_policy_counterexample] below).  Exact statement under the side condition "no annotation key is a reserved
      word"; the general statement is [lex_render_policy_gen]: equal up to [retype]. *)
@@ -1533,6 +1533,243 @@ Proof.
   split; [vm_compute; reflexivity|]. eexists. split; [vm_compute; reflexivity|]. split; vm_compute; reflexivity.
 Qed.
 
+(* ------------------------------------------------------------------------------------------------------------- *)
+(* 7. Positions do not matter to the parser                                                                       *)
+(* ------------------------------------------------------------------------------------------------------------- *)
+From Cedar Require Import Proofs.ParserFuel.
+
+(* a token with its position erased *)
+Definition nrm (t : token) : token := mk (strip t).
+
+Lemma peek_map : forall ts, peek (map nrm ts) = nrm (peek ts).
+Proof. intros [|t ts]; reflexivity. Qed.
+Lemma adv_map : forall ts, adv (map nrm ts) = map nrm (adv ts).
+Proof. intros [|a [|b r]]; reflexivity. Qed.
+Lemma tx_nrm : forall t s, tx (nrm t) s = tx t s.
+Proof. reflexivity. Qed.
+Lemma is_ident_nrm : forall t, is_ident (nrm t) = is_ident t.
+Proof. reflexivity. Qed.
+Lemma is_int_nrm : forall t, is_int (nrm t) = is_int t.
+Proof. reflexivity. Qed.
+Lemma is_string_nrm : forall t, is_string (nrm t) = is_string t.
+Proof. reflexivity. Qed.
+Lemma is_reserved_nrm : forall t, is_reserved_tok (nrm t) = is_reserved_tok t.
+Proof. reflexivity. Qed.
+Lemma t_text_nrm : forall t, t_text (nrm t) = t_text t.
+Proof. reflexivity. Qed.
+Lemma t_type_nrm : forall t, t_type (nrm t) = t_type t.
+Proof. reflexivity. Qed.
+Lemma relop_nrm : forall t, relop (nrm t) = relop t.
+Proof. reflexivity. Qed.
+Lemma exact_map : forall ts s, exact (map nrm ts) s = option_map (map nrm) (exact ts s).
+Proof. intros ts s. unfold exact. rewrite peek_map, tx_nrm, adv_map. destruct (tx (peek ts) s); reflexivity. Qed.
+
+Definition emap {A : Type} (x : pres A) : pres A :=
+  match x with POk a r => POk a (map nrm r) | PErr => PErr | PFuel => PFuel end.
+
+Definition umap (x : list bool * list token) : list bool * list token := (fst x, map nrm (snd x)).
+
+Lemma unary_ops_map : forall f ts acc, unary_ops f (map nrm ts) acc = option_map umap (unary_ops f ts acc).
+Proof.
+  induction f as [|f IH]; intros ts acc; [reflexivity|]. cbn [unary_ops]. cbv zeta.
+  rewrite peek_map, !tx_nrm, adv_map, !IH.
+  destruct (tx (peek ts) "-"); [reflexivity|]. destruct (tx (peek ts) "!"); reflexivity.
+Qed.
+
+Ltac par_rw :=
+  repeat first
+    [ rewrite peek_map | rewrite adv_map | rewrite tx_nrm | rewrite is_ident_nrm | rewrite is_int_nrm | rewrite is_string_nrm
+    | rewrite is_reserved_nrm | rewrite t_text_nrm | rewrite t_type_nrm | rewrite relop_nrm | rewrite exact_map
+    | rewrite map_length | rewrite unary_ops_map ].
+
+Ltac par_ih := idtac.
+
+Ltac par_norm ih := repeat (progress (cbn [emap option_map umap fst snd]; par_rw; ih)).
+
+Ltac par_with ih :=
+  repeat (par_norm ih;
+    match goal with
+    | |- ?x = ?x => reflexivity
+    | |- context [match ?c with _ => _ end] => is_var c; destruct c
+    | |- context [if ?c then _ else _] => destruct c
+    | |- context [emap ?c] =>
+        lazymatch c with
+        | (match _ with _ => _ end) => fail
+        | (if _ then _ else _) => fail
+        | POk _ _ => fail | PErr => fail | PFuel => fail
+        | _ => destruct c
+        end
+    | |- context [option_map _ ?c] => destruct c
+    | |- context [match ?c with _ => _ end] =>
+        lazymatch c with
+        | emap _ => fail
+        | option_map _ _ => fail
+        | _ => destruct c
+        end
+    end);
+  par_norm ih; try reflexivity.
+
+Lemma entity_rest_map : forall f ty ts, entity_rest f ty (map nrm ts) = emap (entity_rest f ty ts).
+Proof.
+  induction f as [|f IH]; intros ty ts; [reflexivity|]. cbn [entity_rest]. cbv zeta.
+  par_with ltac:(rewrite ?IH).
+Qed.
+
+Lemma p_entity_map : forall f ts, p_entity f (map nrm ts) = emap (p_entity f ts).
+Proof. intros f ts. unfold p_entity. cbv zeta. par_with ltac:(rewrite ?entity_rest_map). Qed.
+
+Lemma path_rest_map : forall f ty ts, path_rest f ty (map nrm ts) = emap (path_rest f ty ts).
+Proof.
+  induction f as [|f IH]; intros ty ts; [reflexivity|]. cbn [path_rest]. cbv zeta.
+  par_with ltac:(rewrite ?IH).
+Qed.
+
+Lemma p_path_map : forall f ts, p_path f (map nrm ts) = emap (p_path f ts).
+Proof. intros f ts. unfold p_path. cbv zeta. par_with ltac:(rewrite ?path_rest_map). Qed.
+
+Lemma p_entlist_map : forall f ts acc, p_entlist f (map nrm ts) acc = emap (p_entlist f ts acc).
+Proof.
+  induction f as [|f IH]; intros ts acc; [reflexivity|]. cbn [p_entlist].
+  par_with ltac:(rewrite ?IH, ?p_entity_map).
+Qed.
+
+Lemma p_scope_pr_map : forall f ts, p_scope_pr f (map nrm ts) = emap (p_scope_pr f ts).
+Proof. intros f ts. unfold p_scope_pr. cbv zeta. par_with ltac:(rewrite ?p_entity_map, ?p_path_map). Qed.
+
+Lemma p_scope_action_map : forall f ts, p_scope_action f (map nrm ts) = emap (p_scope_action f ts).
+Proof. intros f ts. unfold p_scope_action. cbv zeta. par_with ltac:(rewrite ?p_entity_map, ?p_entlist_map). Qed.
+Lemma expr_block_map : forall f,
+  (forall ts, p_expression f (map nrm ts) = emap (p_expression f ts)) /\
+  (forall ts, p_or f (map nrm ts) = emap (p_or f ts)) /\
+  (forall l ts, p_or_loop f l (map nrm ts) = emap (p_or_loop f l ts)) /\
+  (forall ts, p_and f (map nrm ts) = emap (p_and f ts)) /\
+  (forall l ts, p_and_loop f l (map nrm ts) = emap (p_and_loop f l ts)) /\
+  (forall ts, p_relation f (map nrm ts) = emap (p_relation f ts)) /\
+  (forall res cur ts, p_has_chain f res cur (map nrm ts) = emap (p_has_chain f res cur ts)) /\
+  (forall ts, p_add f (map nrm ts) = emap (p_add f ts)) /\
+  (forall l ts, p_add_loop f l (map nrm ts) = emap (p_add_loop f l ts)) /\
+  (forall ts, p_mult f (map nrm ts) = emap (p_mult f ts)) /\
+  (forall l ts, p_mult_loop f l (map nrm ts) = emap (p_mult_loop f l ts)) /\
+  (forall ts, p_unary f (map nrm ts) = emap (p_unary f ts)) /\
+  (forall ts, p_member f (map nrm ts) = emap (p_member f ts)) /\
+  (forall l ts, p_access_loop f l (map nrm ts) = emap (p_access_loop f l ts)) /\
+  (forall ts, p_primary f (map nrm ts) = emap (p_primary f ts)) /\
+  (forall pre ts, p_entity_or_extfun f pre (map nrm ts) = emap (p_entity_or_extfun f pre ts)) /\
+  (forall close ts acc, p_expressions f close (map nrm ts) acc = emap (p_expressions f close ts acc)) /\
+  (forall ts acc, p_record f (map nrm ts) acc = emap (p_record f ts acc)).
+Proof.
+  induction f as [|f IH].
+  - repeat match goal with |- _ /\ _ => split end; intros; reflexivity.
+  - destruct IH as (IH1 & IH2 & IH3 & IH4 & IH5 & IH6 & IH7 & IH8 & IH9 & IH10 & IH11 & IH12 & IH13 & IH14 & IH15 & IH16 & IH17 & IH18).
+    pose proof (p_path_map f) as Hpath.
+    assert (IHS : True) by exact I.
+    split; [intros; rewrite !p_expression_S; cbv zeta; par_with ltac:(rewrite ?IH1, ?IH2, ?IH3, ?IH4, ?IH5, ?IH6, ?IH7, ?IH8, ?IH9, ?IH10, ?IH11, ?IH12, ?IH13, ?IH14, ?IH15, ?IH16, ?IH17, ?IH18, ?Hpath)|].
+    split; [intros; rewrite !p_or_S; cbv zeta; par_with ltac:(rewrite ?IH1, ?IH2, ?IH3, ?IH4, ?IH5, ?IH6, ?IH7, ?IH8, ?IH9, ?IH10, ?IH11, ?IH12, ?IH13, ?IH14, ?IH15, ?IH16, ?IH17, ?IH18, ?Hpath)|].
+    split; [intros; rewrite !p_or_loop_S; cbv zeta; par_with ltac:(rewrite ?IH1, ?IH2, ?IH3, ?IH4, ?IH5, ?IH6, ?IH7, ?IH8, ?IH9, ?IH10, ?IH11, ?IH12, ?IH13, ?IH14, ?IH15, ?IH16, ?IH17, ?IH18, ?Hpath)|].
+    split; [intros; rewrite !p_and_S; cbv zeta; par_with ltac:(rewrite ?IH1, ?IH2, ?IH3, ?IH4, ?IH5, ?IH6, ?IH7, ?IH8, ?IH9, ?IH10, ?IH11, ?IH12, ?IH13, ?IH14, ?IH15, ?IH16, ?IH17, ?IH18, ?Hpath)|].
+    split; [intros; rewrite !p_and_loop_S; cbv zeta; par_with ltac:(rewrite ?IH1, ?IH2, ?IH3, ?IH4, ?IH5, ?IH6, ?IH7, ?IH8, ?IH9, ?IH10, ?IH11, ?IH12, ?IH13, ?IH14, ?IH15, ?IH16, ?IH17, ?IH18, ?Hpath)|].
+    split; [intros; rewrite !p_relation_S; cbv zeta; par_with ltac:(rewrite ?IH1, ?IH2, ?IH3, ?IH4, ?IH5, ?IH6, ?IH7, ?IH8, ?IH9, ?IH10, ?IH11, ?IH12, ?IH13, ?IH14, ?IH15, ?IH16, ?IH17, ?IH18, ?Hpath)|].
+    split; [intros; rewrite !p_has_chain_S; cbv zeta; par_with ltac:(rewrite ?IH1, ?IH2, ?IH3, ?IH4, ?IH5, ?IH6, ?IH7, ?IH8, ?IH9, ?IH10, ?IH11, ?IH12, ?IH13, ?IH14, ?IH15, ?IH16, ?IH17, ?IH18, ?Hpath)|].
+    split; [intros; rewrite !p_add_S; cbv zeta; par_with ltac:(rewrite ?IH1, ?IH2, ?IH3, ?IH4, ?IH5, ?IH6, ?IH7, ?IH8, ?IH9, ?IH10, ?IH11, ?IH12, ?IH13, ?IH14, ?IH15, ?IH16, ?IH17, ?IH18, ?Hpath)|].
+    split; [intros; rewrite !p_add_loop_S; cbv zeta; par_with ltac:(rewrite ?IH1, ?IH2, ?IH3, ?IH4, ?IH5, ?IH6, ?IH7, ?IH8, ?IH9, ?IH10, ?IH11, ?IH12, ?IH13, ?IH14, ?IH15, ?IH16, ?IH17, ?IH18, ?Hpath)|].
+    split; [intros; rewrite !p_mult_S; cbv zeta; par_with ltac:(rewrite ?IH1, ?IH2, ?IH3, ?IH4, ?IH5, ?IH6, ?IH7, ?IH8, ?IH9, ?IH10, ?IH11, ?IH12, ?IH13, ?IH14, ?IH15, ?IH16, ?IH17, ?IH18, ?Hpath)|].
+    split; [intros; rewrite !p_mult_loop_S; cbv zeta; par_with ltac:(rewrite ?IH1, ?IH2, ?IH3, ?IH4, ?IH5, ?IH6, ?IH7, ?IH8, ?IH9, ?IH10, ?IH11, ?IH12, ?IH13, ?IH14, ?IH15, ?IH16, ?IH17, ?IH18, ?Hpath)|].
+    split; [intros; rewrite !p_unary_S; cbv zeta; par_with ltac:(rewrite ?IH1, ?IH2, ?IH3, ?IH4, ?IH5, ?IH6, ?IH7, ?IH8, ?IH9, ?IH10, ?IH11, ?IH12, ?IH13, ?IH14, ?IH15, ?IH16, ?IH17, ?IH18, ?Hpath)|].
+    split; [intros; rewrite !p_member_S; cbv zeta; par_with ltac:(rewrite ?IH1, ?IH2, ?IH3, ?IH4, ?IH5, ?IH6, ?IH7, ?IH8, ?IH9, ?IH10, ?IH11, ?IH12, ?IH13, ?IH14, ?IH15, ?IH16, ?IH17, ?IH18, ?Hpath)|].
+    split; [intros; rewrite !p_access_loop_S; cbv zeta; par_with ltac:(rewrite ?IH1, ?IH2, ?IH3, ?IH4, ?IH5, ?IH6, ?IH7, ?IH8, ?IH9, ?IH10, ?IH11, ?IH12, ?IH13, ?IH14, ?IH15, ?IH16, ?IH17, ?IH18, ?Hpath)|].
+    split; [intros; rewrite !p_primary_S; cbv zeta; par_with ltac:(rewrite ?IH1, ?IH2, ?IH3, ?IH4, ?IH5, ?IH6, ?IH7, ?IH8, ?IH9, ?IH10, ?IH11, ?IH12, ?IH13, ?IH14, ?IH15, ?IH16, ?IH17, ?IH18, ?Hpath)|].
+    split; [intros; rewrite !p_entity_or_extfun_S; cbv zeta; par_with ltac:(rewrite ?IH1, ?IH2, ?IH3, ?IH4, ?IH5, ?IH6, ?IH7, ?IH8, ?IH9, ?IH10, ?IH11, ?IH12, ?IH13, ?IH14, ?IH15, ?IH16, ?IH17, ?IH18, ?Hpath)|].
+    split; [intros; rewrite !p_expressions_S; cbv zeta; par_with ltac:(rewrite ?IH1, ?IH2, ?IH3, ?IH4, ?IH5, ?IH6, ?IH7, ?IH8, ?IH9, ?IH10, ?IH11, ?IH12, ?IH13, ?IH14, ?IH15, ?IH16, ?IH17, ?IH18, ?Hpath)|].
+    intros; rewrite !p_record_S; cbv zeta; par_with ltac:(rewrite ?IH1, ?IH2, ?IH3, ?IH4, ?IH5, ?IH6, ?IH7, ?IH8, ?IH9, ?IH10, ?IH11, ?IH12, ?IH13, ?IH14, ?IH15, ?IH16, ?IH17, ?IH18, ?Hpath).
+Qed.
+
+Lemma p_expression_map : forall f ts, p_expression f (map nrm ts) = emap (p_expression f ts).
+Proof. intros f. apply (expr_block_map f). Qed.
+
+Lemma p_annotations_map : forall f ts acc, p_annotations f (map nrm ts) acc = emap (p_annotations f ts acc).
+Proof.
+  induction f as [|f IH]; intros ts acc; [reflexivity|]. cbn [p_annotations]. cbv zeta.
+  par_with ltac:(rewrite ?IH).
+Qed.
+
+Lemma p_conditions_map : forall f ts acc, p_conditions f (map nrm ts) acc = emap (p_conditions f ts acc).
+Proof.
+  induction f as [|f IH]; intros ts acc; [reflexivity|]. cbn [p_conditions]. cbv zeta.
+  par_with ltac:(rewrite ?IH, ?p_expression_map).
+Qed.
+
+(* a parsed policy with its position erased *)
+Definition zp (pp : ppolicy) : ppolicy := {| pp_annots := pp_annots pp; pp_pos := (0, 0, 0); pp_policy := pp_policy pp |}.
+Definition emap_p (x : pres ppolicy) : pres ppolicy :=
+  match x with POk a r => POk (zp a) (map nrm r) | PErr => PErr | PFuel => PFuel end.
+Definition emap_l (x : pres (list ppolicy)) : pres (list ppolicy) :=
+  match x with POk a r => POk (map zp a) (map nrm r) | PErr => PErr | PFuel => PFuel end.
+
+Lemma p_policy_map : forall f ts, p_policy f (map nrm ts) = emap_p (p_policy f ts).
+Proof.
+  intros f ts. unfold p_policy, bind, bexact. cbv zeta.
+  repeat (par_norm ltac:(rewrite ?p_annotations_map, ?p_scope_pr_map, ?p_scope_action_map, ?p_conditions_map);
+    match goal with
+    | |- ?x = ?x => reflexivity
+    | |- context [match ?c with _ => _ end] => is_var c; destruct c
+    | |- context [if ?c then _ else _] => destruct c
+    | |- context [emap ?c] =>
+        lazymatch c with
+        | (match _ with _ => _ end) => fail
+        | (if _ then _ else _) => fail
+        | POk _ _ => fail | PErr => fail | PFuel => fail
+        | _ => destruct c
+        end
+    | |- context [option_map _ ?c] => destruct c
+    end); cbn [emap emap_p option_map]; try reflexivity.
+Qed.
+
+Lemma p_policies_map : forall f ts acc, p_policies f (map nrm ts) (map zp acc) = emap_l (p_policies f ts acc).
+Proof.
+  induction f as [|f IH]; intros ts acc; [reflexivity|]. cbn [p_policies]. rewrite peek_map, t_type_nrm.
+  assert (H : bind (p_policy (S f) (map nrm ts)) (fun p r => p_policies f r (map zp acc ++ [p]))
+              = emap_l (bind (p_policy (S f) ts) (fun p r => p_policies f r (acc ++ [p])))).
+  { rewrite p_policy_map. unfold bind. destruct (p_policy (S f) ts) as [a r| |]; cbn [emap_p emap_l]; [|reflexivity..].
+    rewrite <- IH, map_app. reflexivity. }
+  destruct (t_type (peek ts)); first [reflexivity | exact H].
+Qed.
+
+Lemma map_mk_flat_map : forall (A : Type) (g : A -> list (toktype * str)) l,
+  map mk (flat_map g l) = flat_map (fun x => map mk (g x)) l.
+Proof. intros A g l. induction l as [|x l IH]; [reflexivity|]. cbn [flat_map]. rewrite map_app, IH. reflexivity. Qed.
+
+Section TextRoundTrip.
+  Variables (is_printable is_gext : Z -> bool) (set_order : list value -> list nat) (print_ip : bool -> Z -> Z -> str) (extra : expr -> bool).
+  Hypothesis print_ip_plain : forall v6 a p, Forall (fun c => 32 <= c < 127 /\ c <> 34 /\ c <> 92) (print_ip v6 a p).
+
+  (* print to bytes, tokenize the bytes, parse the tokens: the policies come back (up to the text normal form), whatever the
+     white-space separator.  Side condition: no annotation key is a reserved word (see lex_render_policy). *)
+  Theorem text_roundtrip_document : forall sep ps, all_ws sep ->
+    Forall (fun ap => policy_ok set_order (fst ap) (snd ap) = true) ps ->
+    Forall (fun ap => forallb (fun kv : str * str => negb (is_reserved (fst kv))) (fst ap) = true) ps ->
+    exists f0, forall f, (f0 <= f)%nat -> exists ts,
+      spec_tokenize f (render (doc_items is_printable is_gext set_order print_ip extra sep ps)) = Some (Some ts) /\
+      exists res last, p_policies f ts [] = POk res [last] /\ t_type last = TEOF /\
+        map (fun pp => (pp_annots pp, pp_policy pp)) res = map (fun ap => (fst ap, norm_policy set_order print_ip (snd ap))) ps.
+  Proof.
+    intros sep ps Hsep Hok Hres.
+    destruct (lex_render_document is_printable is_gext set_order print_ip extra print_ip_plain sep ps Hsep Hok Hres) as [f1 H1].
+    destruct (ParserRoundTrip.parse_print_policies is_printable is_gext set_order print_ip extra print_ip_plain ps Hok) as [f2 H2].
+    exists (f1 + f2)%nat. intros f Hf. destruct (H1 f ltac:(lia)) as (ts & Etok & Ets). exists ts. split; [exact Etok|].
+    specialize (H2 f ltac:(lia)).
+    assert (Hn : map nrm ts = ParserRoundTrip.doc_toks is_printable is_gext set_order print_ip extra ps).
+    { unfold nrm. rewrite <- (map_map strip mk), Ets, map_app, map_mk_flat_map. reflexivity. }
+    pose proof (p_policies_map f ts []) as Hp. cbn [map] in Hp. rewrite Hn, H2 in Hp.
+    destruct (p_policies f ts []) as [res rest| |]; cbn [emap_l] in Hp; try discriminate Hp.
+    injection Hp as Hres' Hrest.
+    destruct rest as [|last [|x rest']]; try discriminate Hrest.
+    exists res, last. split; [reflexivity|]. split.
+    - assert (Hl : nrm last = eof_token) by (cbn [map] in Hrest; congruence). apply (f_equal t_type) in Hl. exact Hl.
+    - apply (f_equal (map (fun pp => (pp_annots pp, pp_policy pp)))) in Hres'. rewrite !map_map in Hres'.
+      cbn [zp pp_annots pp_policy ParserRoundTrip.doc_result] in Hres'. symmetry. exact Hres'.
+  Qed.
+End TextRoundTrip.
+
 Print Assumptions lex_render_generic.
 Print Assumptions lex_render_strict.
 Print Assumptions lex_render_expr.
@@ -1542,3 +1779,4 @@ Print Assumptions lex_render_document.
 Print Assumptions lex_render_document_gen.
 Print Assumptions lex_render_document_ws.
 Print Assumptions lex_render_policy_counterexample.
+Print Assumptions text_roundtrip_document.
